@@ -10,6 +10,27 @@ from .universe import Universe, scratch_base
 
 __all__ = ("gen_history", "run_history", "HistoryRun", "compare_with_scratch")
 
+# Swarm timing profiles (range overrides of the chooser labels).  Three scenarios in four keep
+# the default ranges; the others stretch one family of latencies so that races which need a
+# long hash job, a slow launch, a slow network or a late report are not left to one tuning.
+# Drawn from a stream of its own: the structure of a scenario does not depend on it.
+SCHED_PROFILES = [
+    {"hash.slow": [250]},
+    {"hash.slow": [120], "proc.launch": [0, 5], "net.latency": [0, 2]},
+    {"hash.delay": [50, 400], "proc.launch": [0, 300]},
+    {"net.latency": [0, 200], "proc.launch": [0, 5]},
+    {"proc.launch": [100, 600], "net.accept": [0, 300]},
+    {"reporter.latency": [0, 100], "proc.yield": [0, 30]},
+    {"net.latency": [0, 0], "proc.launch": [0, 0], "hash.delay": [0, 0]},
+]
+
+
+def gen_sched_profile(seed: int):
+    prng = random.Random(derive_seed(seed, "sched-profile"))
+    if prng.random() < 0.75:
+        return None
+    return copy.deepcopy(prng.choice(SCHED_PROFILES))
+
 
 def gen_history(seed: int, always=(), never=(), masks=frozenset(), nphases=None, max_size=8):
     rng = random.Random(seed)
@@ -36,12 +57,16 @@ def gen_history(seed: int, always=(), never=(), masks=frozenset(), nphases=None,
         if final:
             cfg.pop("do_clean", None)
         phases.append({"project": cur, "mode": "restart", "cfg": cfg, "edits": descs})
+    sched = {"mode": "seeded", "seed": derive_seed(seed, "sched")}
+    prof = gen_sched_profile(seed)
+    if prof:
+        sched["profile"] = prof
     return {
         "seed": seed,
         "features": feats,
         "masks": sorted(masks),
         "phases": phases,
-        "schedule": {"mode": "seeded", "seed": derive_seed(seed, "sched")},
+        "schedule": sched,
     }
 
 
@@ -51,13 +76,33 @@ class HistoryRun:
         self.results = []
         self.trees = []
         self.user_ops = []
+        self.detached_before = []
 
     @property
     def last(self):
         return self.results[-1]
 
 
-def run_history(scenario, name="A", monitors=None, upto=None, base=None, take_temp=False) -> HistoryRun:
+def _detached_file_labels(uni):
+    """Labels of the file nodes that are detached in the stored workflow right now."""
+    import sqlite3
+
+    path = os.path.join(uni.root, ".stepup", "graph.db")
+    if not os.path.isfile(path):
+        return frozenset()
+    con = sqlite3.connect(path)
+    try:
+        return frozenset(
+            r[0] for r in con.execute("SELECT label FROM node WHERE kind = 'file' AND detached")
+        )
+    except sqlite3.Error:
+        return frozenset()
+    finally:
+        con.close()
+
+
+def run_history(scenario, name="A", monitors=None, upto=None, base=None, take_temp=False,
+                track_detached=False) -> HistoryRun:
     base = base or scratch_base()
     root = os.path.join(base, f"{scenario['seed']}-{name}")
     sched = scenario["schedule"]
@@ -67,6 +112,9 @@ def run_history(scenario, name="A", monitors=None, upto=None, base=None, take_te
     run = HistoryRun(uni)
     phases = scenario["phases"] if upto is None else scenario["phases"][:upto]
     for ph in phases:
+        if track_detached:
+            # which file nodes were detached while the user made the edits of this phase
+            run.detached_before.append(_detached_file_labels(uni))
         ops = uni.sync_tree(ph["project"])
         run.user_ops.append(ops)
         res = uni.build(dict(ph["cfg"]), scratch=(ph["mode"] == "scratch"))
@@ -243,6 +291,7 @@ def collect(result, world, build_results):
     result.stats["commands"] += ncmd
     for k, v in world.stats.items():
         result.stats[k] += v
-    if world.net is None:
-        pass
+    prof = getattr(world.chooser, "profile", None)
+    if prof:
+        result.stats["swarm.sched_profile." + "+".join(sorted(prof))] += 1
     return ncmd
